@@ -73,6 +73,22 @@ fn screen_prefix(w: i32, h: i32, screen: u8) -> Vec<u8> {
     v
 }
 
+/// terminal modes a control function may meet: 0 none, 1 top/bottom margins, 2 top/bottom + left/right margins with origin mode
+fn mode_prefix(w: i32, h: i32, mode: u8) -> Vec<u8> {
+    let mut v = Vec::new();
+    if mode >= 1 {
+        v.extend_from_slice(format!("\x1b[{};{}r", 2.min(h), (h - 1).max(1)).as_bytes());
+    }
+    if mode >= 2 {
+        v.extend_from_slice(format!("\x1b[?69h\x1b[{};{}s\x1b[?6h", 2.min(w), (w - 1).max(1)).as_bytes());
+    }
+    if mode >= 1 {
+        let (y, x) = (h / 2 + 1, w / 2 + 1);
+        v.extend_from_slice(format!("\x1b[{y};{x}H").as_bytes());
+    }
+    v
+}
+
 #[derive(Debug, Default, Clone)]
 struct Run {
     ticks: u64,
@@ -117,7 +133,8 @@ fn run_once(t: &Tmpl, mag: i64) -> Run {
     };
     match t.kind.as_str() {
         "stream" => {
-            let prefix = screen_prefix(t.w, t.h, t.screen);
+            let mut prefix = screen_prefix(t.w, t.h, t.screen % 3);
+            prefix.extend(mode_prefix(t.w, t.h, t.screen / 3));
             // the prefix is legitimate work: measure it separately and subtract
             let emu = if t.emu.is_empty() { "ansi".to_string() } else { t.emu.clone() };
             let base_case = StreamCase {
@@ -125,7 +142,7 @@ fn run_once(t: &Tmpl, mag: i64) -> Run {
                 music: 0,
                 w: t.w,
                 h: t.h,
-                alloc: t.screen != 0,
+                alloc: t.screen % 3 != 0,
                 prefix: prefix.clone(),
                 bytes: vec![],
             };
@@ -273,6 +290,7 @@ pub struct C03 {
     seeds: Vec<crate::files::Seed>,
     n_files: u64,
     n_csi: u64,
+    n_modes: u64,
     n_special: u64,
     specials: Vec<Tmpl>,
     csi_full: u64,
@@ -299,9 +317,9 @@ fn decode_vec(mut idx: u64) -> Vec<u8> {
 }
 
 impl C03 {
-    fn csi_tmpl(&self, k: u64) -> Tmpl {
+    fn csi_tmpl(&self, k: u64, mode: u8) -> Tmpl {
         let mut r = k;
-        let screen = (r % 3) as u8;
+        let screen = (r % 3) as u8 + 3 * mode;
         r /= 3;
         let (w, h) = SCREENS[(r % 3) as usize];
         r /= 3;
@@ -563,13 +581,18 @@ impl C03 {
                     small + crate::rng::mix(ctx.seed, k) % (self.csi_full - small)
                 }
             };
-            (self.csi_tmpl(idx), "csi-table")
-        } else if k < self.n_csi + self.n_special {
-            (self.specials[((k - self.n_csi) % self.specials.len() as u64) as usize].clone(), "special")
+            (self.csi_tmpl(idx, 0), "csi-table")
+        } else if k < self.n_csi + self.n_modes {
+            // the same table with margins / origin mode set (parameter vectors up to mode_len)
+            let i = k - self.n_csi;
+            let per_mode = self.n_modes / 2;
+            (self.csi_tmpl(i % per_mode, 1 + (i / per_mode) as u8), "csi-table-modes")
+        } else if k < self.n_csi + self.n_modes + self.n_special {
+            (self.specials[((k - self.n_csi - self.n_modes) % self.specials.len() as u64) as usize].clone(), "special")
         } else {
             // header-field extremes of every seed file: (seed, offset 0..64, width, value)
             let full = self.seeds.len() as u64 * 64 * 3 * 6;
-            let i = k - self.n_csi - self.n_special;
+            let i = k - self.n_csi - self.n_modes - self.n_special;
             let mut r = if self.n_files >= full { i } else { crate::rng::mix(ctx.seed ^ 0xF11E, i) % full };
             let val: u32 = [0u32, 1, 0x7FFF, 0xFFFF, 0x7FFF_FFFF, 0xFFFF_FFFF][(r % 6) as usize];
             r /= 6;
@@ -653,7 +676,7 @@ impl Prop for C03 {
         "C03"
     }
     fn rule(&self) -> &'static str {
-        "a case is a template with numeric slots, executed with every slot at max(W,H)+1, 2^16, 10^6 and 2^31-1 on the real engine with the work counter (hook H1), the counting allocator and the nesting guard (H2) armed. Oracles: ticks <= 16(n+1)WH*max(W,H) for streams (64*65536*(n+1) for fonts/files, 4096(n+1) for sixel), peak live allocation <= 64MiB+4096n, nesting <= 16, cpu <= 2s, and saturation: ticks/peak at a larger magnitude <= 2x those at the smaller one. Templates: the complete CSI table (63 finals x 8 intermediates x parameter vectors of length 0..=6 over {0,1,size,BIG}) x 3 sizes x 3 prepared screens (quick: lengths <=3 complete + sample), margins/rectangles/tab/colour functions, DCS macro definitions (text, hex repeat groups, self/mutual recursion, doubling chains), sixel raster/repeat headers (through the terminal and directly), Avatar repeat, CTerm:Font / PSF1 / PSF2 header fields. distinct_nontrivial = distinct (family, screen, size, log2 tick profile over the magnitudes) fingerprints"
+        "a case is a template with numeric slots, executed with every slot at max(W,H)+1, 2^16, 10^6 and 2^31-1 on the real engine with the work counter (hook H1), the counting allocator and the nesting guard (H2) armed. Oracles: ticks <= 16(n+1)WH*max(W,H) for streams (64*65536*(n+1) for fonts/files, 4096(n+1) for sixel), peak live allocation <= 64MiB+4096n, nesting <= 16, cpu <= 2s, and saturation: ticks/peak at a larger magnitude <= 2x those at the smaller one. Templates: the complete CSI table (63 finals x 8 intermediates x parameter vectors of length 0..=6 over {0,1,size,BIG}) x 3 sizes x 3 prepared screens (quick: lengths <=3 complete + sample), the same table with top/bottom margins set and with top/bottom + left/right margins + origin mode set (parameter vectors of length <=2 quick / <=4 thorough), margins/rectangles/tab/colour functions, DCS macro definitions (text, hex repeat groups, self/mutual recursion, doubling chains), sixel raster/repeat headers (through the terminal and directly), Avatar repeat, CTerm:Font / PSF1 / PSF2 header fields. distinct_nontrivial = distinct (family, screen, size, log2 tick profile over the magnitudes) fingerprints"
     }
     fn meta(&self, _ctx: &Ctx) -> Value {
         json!({"floor_evaluations": 5000, "floor_distinct": 300, "watchdog_s": 60, "watchdog_is_violation": true, "plain_pass": "quick",
@@ -665,11 +688,12 @@ impl Prop for C03 {
         self.csi_full = 3 * 3 * 63 * 8 * vec_count(6);
         let small = 3 * 3 * 63 * 8 * vec_count(3);
         self.n_csi = ctx.tier.pick(small + 60_000, self.csi_full);
+        self.n_modes = 2 * 3 * 3 * 63 * 8 * vec_count(ctx.tier.pick(2, 4));
         self.n_special = self.specials.len() as u64;
         self.seeds = crate::files::build_corpus();
         let full = self.seeds.len() as u64 * 64 * 3 * 6;
         self.n_files = ctx.tier.pick(20_000.min(full), full);
-        self.n_csi + self.n_special + self.n_files
+        self.n_csi + self.n_modes + self.n_special + self.n_files
     }
     fn run_case(&mut self, ctx: &mut Ctx, k: u64) {
         let (t, class) = self.tmpl_for(ctx, k);
